@@ -80,7 +80,34 @@ fn run(case: &mut Case) -> Result<Outcome, String> {
     // ---- (1) convergence and (2) accuracy on well-posed systems
     let ks = kinds_for(solver);
     let kind = ks[case.src.usize_below(ks.len())];
-    let a = gen_matrix(&mut case.src, n, kind);
+    // quick tier: the B^T B + mu I systems (whose CG runs are the long ones) at twice the order drawn, 2..=60, so that runs
+    // of 64 and more iterations occur in every tier
+    let n = if case.tier == Tier::Quick && KINDS[kind] == "spd-btb" { 2 * n } else { n };
+    // half of the diagonally dominant SPD systems: narrow band (1 or 2 off-diagonals) with a tight dominance margin
+    // (1e-3 .. 1e-1) at an order from the upper half of the range - condition number of a few hundred, on which CG needs
+    // more iterations than the order (runs of 64 .. 150 iterations)
+    let banded = KINDS[kind] == "spd-dominant" && case.src.coin();
+    let n = if banded { 31 + case.src.usize_below(30) } else { n };
+    let a = if banded {
+        let w = 1 + case.src.usize_below(2);
+        let margin = 10f64.powf(case.src.f64_in(-3.0, -1.0));
+        let mut a = vec![vec![0.0; n]; n];
+        for i in 0..n {
+            for j in i + 1..(i + w + 1).min(n) {
+                let v = case.src.f64_in(0.2, 1.0) * if case.src.coin() { 1.0 } else { -1.0 };
+                a[i][j] = v;
+                a[j][i] = v;
+            }
+        }
+        for i in 0..n {
+            let sum: f64 = (0..n).filter(|&j| j != i).map(|j| a[i][j].abs()).sum();
+            a[i][i] = sum * (1.0 + margin);
+        }
+        case.class("narrow-banded SPD with a tight dominance margin");
+        a
+    } else {
+        gen_matrix(&mut case.src, n, kind)
+    };
     let xstar: Vec<f64> = (0..n).map(|_| case.src.f64_in(-2.0, 2.0)).collect();
     let sc = if case.src.below(3) == 0 { 10f64.powf(case.src.f64_in(-6.0, 6.0)) } else { 1.0 };
     let b: Vec<f64> = if case.src.below(10) == 0 { vec![0.0; n] } else { matvec(&a, &xstar).iter().map(|v| v * sc).collect() };
